@@ -1,9 +1,160 @@
-"""Run Kani harnesses of /verif/kani against the real crate (hooks on).  Filled in with the Kani units."""
+"""Run Kani harnesses of /verif/kani against the real crate (hooks on) and parse the results."""
+import filecmp
+import os
+import re
+import shutil
+import subprocess
+import time
 
 
 class KaniUndecided(Exception):
     pass
 
 
-def run_harnesses(harnesses, repo, work, root, log):
-    return []
+def prepare(repo, work, root):
+    """Materialise the harness crate with a path dependency on `repo` (sources are copied only when changed)."""
+    d = os.path.join(work, "kani-crate")
+    os.makedirs(os.path.join(d, "src"), exist_ok=True)
+    toml = open(os.path.join(root, "kani", "Cargo.toml.in")).read().replace("@REPO@", repo)
+    tp = os.path.join(d, "Cargo.toml")
+    if not os.path.exists(tp) or open(tp).read() != toml:
+        with open(tp, "w") as f:
+            f.write(toml)
+    lock_src = os.path.join(repo, "Cargo.lock")
+    lock_dst = os.path.join(d, "Cargo.lock")
+    if not os.path.exists(lock_dst):
+        shutil.copy(lock_src, lock_dst)
+    srcdir = os.path.join(root, "kani", "src")
+    for fn in os.listdir(srcdir):
+        a, b = os.path.join(srcdir, fn), os.path.join(d, "src", fn)
+        if not os.path.exists(b) or not filecmp.cmp(a, b, shallow=False):
+            shutil.copy(a, b)
+    for fn in os.listdir(os.path.join(d, "src")):
+        if not os.path.exists(os.path.join(srcdir, fn)):
+            os.unlink(os.path.join(d, "src", fn))
+    return d
+
+
+def kani_env(work):
+    env = dict(os.environ, CARGO_NET_OFFLINE="true", RUSTFLAGS="--cfg substrate_fixed_verif",
+               CARGO_TARGET_DIR=os.path.join(work, "kani-target"))
+    return env
+
+
+def norm_spec(h):
+    if isinstance(h, str):
+        return {"harness": h}
+    return dict(h)
+
+
+def parse_log(text, names):
+    """-> {harness: {status, checks, failed, time_s, failed_checks}}"""
+    res = {}
+    cur = {}
+    buf = {}
+    owner = None
+    for ln in text.split("\n"):
+        m = re.match(r"(?:Thread (\d+): )?Checking harness ([\w:]+)\.\.\.", ln)
+        if m:
+            cur[m.group(1) or "-"] = m.group(2)
+            buf.setdefault(m.group(2), [])
+            owner = m.group(2) if m.group(1) is None else None
+            continue
+        m = re.match(r"Thread (\d+):\s*$", ln)
+        if m:
+            owner = cur.get(m.group(1))
+            continue
+        if ln.startswith("Manual Harness Summary") or ln.startswith("Complete - "):
+            owner = None
+        if owner is not None:
+            buf[owner].append(ln)
+    for h, b in buf.items():
+        t = "\n".join(b)
+        st = "UNKNOWN"
+        if "VERIFICATION:- SUCCESSFUL" in t:
+            st = "SUCCESS"
+        elif "VERIFICATION:- FAILED" in t:
+            st = "FAILED"
+        m = re.search(r"\*\* (\d+) of (\d+) failed", t)
+        checks = int(m.group(2)) if m else 0
+        nfail = int(m.group(1)) if m else 0
+        m = re.search(r"Verification Time: ([0-9.]+)s", t)
+        tm = float(m.group(1)) if m else 0.0
+        fails = [x for x in b if x.startswith("Failed Checks:") or "Failed Checks" in x]
+        # unwinding assertion failures / unsupported constructs mean "not decided", not "violated"
+        if st == "FAILED":
+            only_unwind = fails and all(("unwinding assertion" in x) for x in fails)
+            if only_unwind:
+                st = "UNWIND"
+            if "unsupported" in t.lower() and not any("assertion failed" in x or "attempt to" in x or "panicked" in x for x in fails):
+                st = "UNSUPPORTED"
+        cov = re.findall(r"(\d+) of (\d+) cover properties satisfied", t)
+        cover_ok = all(a == b2 for a, b2 in cov) if cov else True
+        res[h] = {"harness": h, "status": st, "checks": checks, "n_failed": nfail, "time_s": tm,
+                  "failed_checks": "\n".join(fails)[:3000], "summary": "\n".join(fails[:3]), "cover_ok": cover_ok,
+                  "stubs": re.findall(r"- Stub: (\S+)", t)}
+    for n in names:
+        if n not in res:
+            res[n] = {"harness": n, "status": "MISSING", "checks": 0, "n_failed": 0, "time_s": 0.0, "failed_checks": "", "summary": ""}
+    return res
+
+
+def run_harnesses(harnesses, repo, work, root, log, jobs=12, timeout=3000, extra=()):
+    specs = [norm_spec(h) for h in harnesses]
+    if not specs:
+        return []
+    d = prepare(repo, work, root)
+    cmd = ["cargo", "kani", "-Z", "function-contracts", "-Z", "stubbing", "-j", str(jobs), "--output-format=terse"]
+    for e in extra:
+        cmd.append(e)
+    for s in specs:
+        cmd += ["--harness", s["harness"]]
+    cmd.append("--exact")
+    t0 = time.time()
+    try:
+        p = subprocess.run(cmd, cwd=d, env=kani_env(work), stdout=subprocess.PIPE, stderr=subprocess.STDOUT, text=True, timeout=timeout)
+        out = p.stdout
+        timed_out = False
+    except subprocess.TimeoutExpired as e:
+        out = (e.stdout or b"").decode() if isinstance(e.stdout, bytes) else (e.stdout or "")
+        timed_out = True
+        subprocess.run(["pkill", "-f", "cbmc"], check=False)
+    with open(os.path.join(work, "kani-last.log"), "w") as f:
+        f.write(out)
+    if "error: could not compile" in out or "error[E" in out:
+        raise KaniUndecided("the Kani harness crate does not compile against this tree: " +
+                            "; ".join(re.findall(r"error(?:\[E\d+\])?: [^\n]*", out)[:3]))
+    names = [s["harness"] for s in specs]
+    parsed = parse_log(out, names)
+    res = []
+    for s in specs:
+        r = dict(parsed[s["harness"]])
+        r["classes"] = s.get("classes", ["functional", "panic"])
+        r["cmd"] = "cargo kani -Z function-contracts -Z stubbing --harness <h> (kani/src, path dep on /repo, --cfg substrate_fixed_verif)"
+        if timed_out and r["status"] in ("MISSING", "UNKNOWN"):
+            r["status"] = "TIMEOUT"
+        if r["status"] == "SUCCESS" and not r.get("cover_ok", True):
+            r["status"] = "COVER-UNSAT"
+        res.append(r)
+    log("kani: %d harnesses in %.0fs: %s" % (len(res), time.time() - t0,
+        ", ".join("%s=%s" % (r["harness"].split("::", 1)[-1], r["status"]) for r in res if r["status"] != "SUCCESS") or "all SUCCESS"))
+    return res
+
+
+def playback(harness, repo, work, root, timeout=1200):
+    """Re-run one failing harness with concrete playback; returns list of byte vectors (one per kani::any)."""
+    d = prepare(repo, work, root)
+    cmd = ["cargo", "kani", "-Z", "function-contracts", "-Z", "stubbing", "-Z", "concrete-playback",
+           "--concrete-playback=print", "--output-format=terse", "--harness", harness, "--exact"]
+    try:
+        p = subprocess.run(cmd, cwd=d, env=kani_env(work), stdout=subprocess.PIPE, stderr=subprocess.STDOUT, text=True, timeout=timeout)
+    except subprocess.TimeoutExpired:
+        return None, ""
+    out = p.stdout
+    m = re.search(r"let concrete_vals: Vec<Vec<u8>> = vec!\[(.*?)\];", out, re.S)
+    if not m:
+        return None, out[-3000:]
+    vals = []
+    for vm in re.finditer(r"vec!\[([0-9,\s]*)\]", m.group(1)):
+        vals.append([int(x) for x in vm.group(1).replace(" ", "").split(",") if x])
+    return vals, out[-3000:]
